@@ -16,7 +16,7 @@ P(root, segs) == LET F[i \in 0..Len(segs)] == IF i = 0 THEN root ELSE Attr(F[i -
 x == Id0("x")  y == Id0("y")  a == Id0("a")  nsx == Id(<<"ns">>, "x")
 one == IntL(1)
 E == Hole("e")
-Atoms == { x, y, a, one,
+Atoms == { x, y, a, one, StrL(<<97, 39, 39, 39, 39, 98>>), Cmp("eq", P(x, <<"a">>), StrL(<<39, 39, 39>>)),
            P(x, <<"a">>), P(x, <<"a", "b">>), P(x, <<"a", "b", "c">>), P(x, <<"a", "b", "c", "d">>),
            P(x, <<"x">>), P(x, <<"x", "x">>), P(y, <<"x">>), P(y, <<"x", "a">>), P(a, <<"x", "y">>),
            P(nsx, <<"a">>), P(nsx, <<"a", "b">>), P(y, <<"a">>), P(a, <<"a">>), P(a, <<"a", "a">>),
